@@ -78,6 +78,27 @@ def covering_cases():
     return out
 
 
+def long_retry_cases():
+    """deterministic: very long runs of rejected answers to ONE question (first, middle and last question); a question
+    must be repeated 'until the answer is legal' however long that takes"""
+    out = []
+    junk = ["?", "zz", "0", " ", "NO", "nd?", "x1"]
+    for version in (2, 3.0, 3.1, 4.0):
+        ver = interact.verkey(version)
+        V = spec.VERS[ver]
+        for allm in (False, True):
+            order = interact.probe_order(version, allm) or list(V.order if allm else V.mandatory)
+            for pos, n in ((0, 1500), (len(order) // 2, 400), (len(order) - 1, 3000)):
+                answers = []
+                for i, m in enumerate(order):
+                    if i == pos:
+                        bad = [junk[j % len(junk)] for j in range(n)]
+                        answers.extend(a for a in bad if interact.legal_answer(ver, m, a) is None)
+                    answers.append(V.table[m][-1])
+                out.append({"version": version, "all_metrics": allm, "no_colors": True, "answers": answers})
+    return out
+
+
 def hyp_part(n_examples, shard):
     from hypothesis import given, strategies as st
     part = runner.Part(PID)
@@ -118,12 +139,16 @@ def run(tier, t0):
         inp = dict((k, c[k]) for k in ("version", "all_metrics", "no_colors", "answers"))
         part.count(None, classes=("covering",))
         part.check("dialogue", check_dialogue, inp)
+    for inp in long_retry_cases():
+        part.count(None, classes=("long-retry",))
+        part.nontrivial_count += 1
+        part.check("dialogue", check_dialogue, inp)
     part.merge(runner.hyp_shards("vf.props.c16", "hyp_part", 3200 if tier == "quick" else 120000))
     rule = ("version in {2, 3, 3.0, 3.1, 4, 4.0} x all_metrics x no_colors x answer script (per question 0-3 rejected-looking "
             "answers: junk text, values of other metrics, empty where illegal, value+suffix; then a legal value in random "
             "letter case/padding or empty for Not Defined); 10% truncated scripts (EOF). Covering part: every legal value of "
-            "every metric selected in upper and lower case. non-trivial = script with a retry or an empty answer; distinct by hash")
+            "every metric selected in upper and lower case; runs of 400-3000 rejected answers to a single question. non-trivial = script with a retry or an empty answer; distinct by hash")
     return runner.finish(part, tier, t0, rule,
                          ["asking order is taken from the returned vector (any order is accepted as long as the result is made of the accepted answers); prompts/banners are not asserted",
                           "invalid answers are drawn from ASCII plus a few non-ASCII characters without ASCII case mappings"],
-                         required=["covering", "retry", "empty-answer", "truncated", "all", "mandatory-only"] + ["version=%r" % (v,) for v in interact.VERSIONS])
+                         required=["covering", "long-retry", "retry", "empty-answer", "truncated", "all", "mandatory-only"] + ["version=%r" % (v,) for v in interact.VERSIONS])
